@@ -66,6 +66,9 @@ pub(crate) struct ThetaHashTable {
 
     entries: Vec<u64>,
     num_entries: usize,
+
+    /// False once any value has been offered, even if it was screened out by theta.
+    is_empty: bool,
 }
 
 impl ThetaHashTable {
@@ -91,6 +94,7 @@ impl ThetaHashTable {
             hash_seed,
             entries,
             num_entries: 0,
+            is_empty: true,
         }
     }
 
@@ -98,6 +102,7 @@ impl ThetaHashTable {
     ///
     /// Returns the hash value if it passes the theta threshold, otherwise 0.
     pub fn hash_and_screen<T: Hash>(&mut self, value: T) -> u64 {
+        self.is_empty = false;
         let mut hasher = MurmurHash3X64128::with_seed(self.hash_seed);
         value.hash(&mut hasher);
         let (h1, _) = hasher.finish128();
@@ -165,6 +170,7 @@ impl ThetaHashTable {
         assert_eq!(self.entries[index], 0, "Entry should be empty");
         self.entries[index] = hash;
         self.num_entries += 1;
+        self.is_empty = false;
 
         // Check if we need to resize or rebuild
         let capacity = self.get_capacity();
@@ -271,6 +277,7 @@ impl ThetaHashTable {
         self.num_entries = 0;
         self.theta = init_theta;
         self.lg_cur_size = init_lg_cur;
+        self.is_empty = true;
     }
 
     /// Get number of entries
@@ -285,7 +292,7 @@ impl ThetaHashTable {
 
     /// Check if empty
     pub fn is_empty(&self) -> bool {
-        self.num_entries == 0
+        self.is_empty
     }
 
     /// Get iterator over entries
